@@ -24,7 +24,7 @@ def intended(c):
 
 def judge(v, c, rec, variant, pid):
     feats = {"w": c["w"], "kind": c["kind"], "pos": c["pos"], "state": c["state"], "variant": variant,
-             "islist": c["w"] not in ("T", "T!")}
+             "islist": c["w"] not in ("T", "T!"), "dflt": bool(c.get("dflt"))}
     if "error" in rec:
         v.violation(feats, "driver_error:" + rec["error"].split(":")[0], rec)
         return False
@@ -37,7 +37,7 @@ def judge(v, c, rec, variant, pid):
         if c["state"] == "omitted":
             if rec.get("present"):
                 bad |= v.violation(feats, "omitted_but_sent", rec)
-            elif rec.get("delivered") != ["absent"]:
+            elif rec.get("delivered") != (["default"] if c.get("dflt") else ["absent"]):
                 bad |= v.violation(feats, "omitted_but_delivered", rec)
         else:
             if not rec.get("present"):
